@@ -395,8 +395,8 @@ def flux_branch_ok(vv, wave_attr, val_attr):
         return False, f'the wavelengths are not converted to metres before the flux conversion ({fmt(X)})'
     b = {k.items[0].value: k.items[1] for k in back[0][2]}
     wu = b.get('waveunit')
-    if wu not in (nf.attr(S('self'), 'waveunit'),):
-        return False, 'the result is not converted back with Meter().to(self.waveunit)'
+    if wu not in (nf.attr(S('self'), 'waveunit'), nf.attr(nf.attr(S('self'), '_waveunit'), 'name'), NONE):   # NONE: the inlined getter on the path where no unit is set
+        return False, f'the result is not converted back with Meter().to(self.waveunit) but with waveunit = {fmt(wu)[:80]}'
     if vv != Poly.atom(tos[0]) / Poly.atom(back[0]):
         return False, f'extra factor in the flux branch: {fmt(vv)}'
     return True, ''
